@@ -3,6 +3,7 @@ CONSTANTS
   NLines = 3
   Dev = {}
   Lvls = {TRUE, FALSE}
+  TwoPhase = FALSE
   Grain = "stmt"
 SPECIFICATION Spec
 INVARIANT InvExactlyOnce
